@@ -745,6 +745,14 @@ orc_parse_handle_directive (OrcParser *parser, const OrcLine *line)
   int i;
   for (i=0;dirs[i].name;i++) {
     if (orc_line_match_directive (line, dirs[i].name)) {
+      /* everything but .function and .init works on the current program */
+      if (parser->program == NULL &&
+          dirs[i].handler != orc_parse_handle_function &&
+          dirs[i].handler != orc_parse_handle_init) {
+        orc_parse_add_error (parser, "%s before the first .function",
+            line->tokens[0]);
+        return 0;
+      }
       dirs[i].handler (parser, line);
       return 1;
     }
@@ -807,6 +815,11 @@ orc_parse_handle_opcode (OrcParser *parser, const OrcLine *line)
   int n_args;
   int i, j;
   const char *args[6] = { NULL };
+
+  if (parser->program == NULL) {
+    orc_parse_add_error (parser, "instruction before the first .function");
+    return 0;
+  }
 
   if (strcmp (line->tokens[0], "x4") == 0) {
     flags |= ORC_INSTRUCTION_FLAG_X4;
